@@ -71,4 +71,45 @@ theorem invL_step {s s' : State} {a : Act} (hI : InvL s) (hs : step? s a = some 
     all_goals first | (simp at hs; done) | skip
     all_goals (simp only [Option.some.injEq] at hs; subst hs; constructor <;> simp <;> grind [InvL])
 
+@[simp] theorem toPc_ne_closeStore (r : LRet) (h : Nat) (r' : LRet) : r.toPc ≠ .closeStore h r' := by cases r <;> simp [LRet.toPc]
+@[simp] theorem toPc_ne_closeSpin (r : LRet) (h : Nat) (r' : LRet) : r.toPc ≠ .closeSpin h r' := by cases r <;> simp [LRet.toPc]
+@[simp] theorem toPc_ne_scan (r : LRet) (h : Nat) : r.toPc ≠ .scan h := by cases r <;> simp [LRet.toPc]
+@[simp] theorem toPc_ne_drain (r : LRet) : r.toPc ≠ .drain := by cases r <;> simp [LRet.toPc]
+
+/-- senders in the middle of a send work on an initialised handle; ghost sequence numbers are bounded by `pub` -/
+structure InvS (s : State) : Prop where
+  sndLt : ∀ (t : Nat) (x : Sender), s.snd[t]? = some x → x.pc ≠ .idle → x.h < s.nh
+  pendLt : ∀ h, (s.hs h).pending ≠ 0 → h < s.nh
+  seqLe : ∀ (t : Nat) (x : Sender), s.snd[t]? = some x → x.seq ≤ (s.hs x.h).pub
+  seenLe : ∀ h, (s.hs h).seen ≤ (s.hs h).pub
+  closeLt : ∀ h r, s.lpc = .closeStore h r → h < s.nh
+
+theorem invS_step {s s' : State} {a : Act} (hI : InvS s) (hs : step? s a = some s') : InvS s' := by
+  cases a with
+  | begin t h =>
+    simp only [step?] at hs
+    repeat' split at hs
+    all_goals first | (simp at hs; done) | skip
+    all_goals (simp only [Option.some.injEq] at hs; subst hs; constructor <;> simp [setSnd, setH, upd, List.getElem?_set] <;> grind [InvS])
+  | snd t =>
+    simp only [step?, sndStep] at hs
+    repeat' split at hs
+    all_goals first | (simp at hs; done) | skip
+    all_goals (simp only [Option.some.injEq] at hs; subst hs; constructor <;> simp [setSnd, setH, upd, List.getElem?_set] <;> grind [InvS])
+  | loop =>
+    simp only [step?, loopStep] at hs
+    cases hl : s.lpc <;> simp only [hl] at hs <;> (try split at hs) <;> (try (simp at hs; done)) <;>
+      (simp only [Option.some.injEq] at hs; subst hs; constructor <;> simp [nextScan, setH, upd] <;> (try split) <;> (try simp) <;> grind [InvS])
+  | close h =>
+    simp only [step?] at hs
+    repeat' split at hs
+    all_goals first | (simp at hs; done) | skip
+    all_goals (simp only [Option.some.injEq] at hs; subst hs; constructor <;> simp [setH, upd, LPc.ret?] <;> grind [InvS, LPc.ret?])
+  | closeCbs =>
+    simp only [step?] at hs
+    repeat' split at hs
+    all_goals first | (simp at hs; done) | skip
+    all_goals (simp only [Option.some.injEq] at hs; subst hs; constructor <;> simp <;> grind [InvS])
+
+
 end UvModel.Async
